@@ -7,6 +7,8 @@ Run after tools/rs2lean.py."""
 import json,re,glob,os
 os.chdir(os.path.join(os.path.dirname(os.path.abspath(__file__)), '..'))
 st=json.load(open('lean/SqlDt/TranslatedStatus.json'))['functions']
+if os.path.exists('lean/SqlDt/TranslatedFmtStatus.json'):     # phase 6: the byte-slice leaf functions of format.rs
+    st=st+json.load(open('lean/SqlDt/TranslatedFmtStatus.json'))['functions']
 m2eq={}; calls={}; alleq=set()
 for f in st:
     lean=f['lean'].replace('SqlDt.Tr.','')
@@ -62,6 +64,12 @@ for fn in ['lean/SqlDt/Lemmas/'+x for x in json.load(open('tools/tie_files.json'
         m=re.match(r"(?:@\[[^\]]*\]\s*)?theorem\s+(\S+)", l)
         if m: proved.add('.'.join(ns+[m.group(1)]))
 missing=sorted((alleq|set(safe_of_eq.values()))-proved)
+PARSE_LEAVES=E('expect_char','eat_whitespaces','eat_digits','parse_number','parse_week_day_number','parse_fraction','parse_ampm','parse_month_name','parse_week_day_name','parse_year')
+FORMAT_LEAVES=E('write_u32','NDT.fraction')
+for _p in ('C02','C03','C05','C06','C15','C18'):
+    declared[_p]=declared.get(_p,set())|PARSE_LEAVES
+for _p in ('C03','C04','C06','C15'):
+    declared[_p]=declared.get(_p,set())|FORMAT_LEAVES
 tie={}
 for i in range(1,20):
     pid='C%02d'%i
